@@ -175,13 +175,13 @@ GcDone ==
     /\ absent' = {}
     /\ UNCHANGED <<conf, cloud, crE, crI, pods, rt, up, given, delp, told, seen, rg, fresh, wr, healthy>>
 
-(* The NodeRuntime object was written.  nrt: the new content; pn[u]: the pod name recorded for u.  *)
-(* by = "daemon": the node agent; "clock": time passes (stamps age, nothing else changes).           *)
-RtWrite(by, nrt, pn) ==
+(* The NodeRuntime object was written.  nrt: the new content; pn[u]: the pod name recorded for u; loc: the pod UIDs  *)
+(* the agent holds a sandbox record for at that moment.  by = "daemon": the node agent; "clock": time passes.         *)
+RtWrite(by, nrt, pn, loc) ==
     /\ IF by = "daemon" THEN
           G("C03", \A u \in Uids : nrt[u].del > rt[u].del =>                                         \* a new teardown report only for a pod
                  \/ u \in delp                                                                       \*   whose DEL was processed (and not followed by an ADD),
-                 \/ (pn[u] \in absent /\ ~up[u]))                                                    \*   or that was verified absent and has no local record
+                 \/ (pn[u] \in absent /\ u \notin loc))                                              \*   or that was verified absent and has no local record
        ELSE \A u \in Uids : nrt[u].del = rt[u].del                                                   \* (I)
     /\ rt' = nrt
     /\ absent' = IF by = "daemon" THEN {} ELSE absent
